@@ -324,3 +324,144 @@ func paramSpill(a *ssa.Alloc) (*ssa.Parameter, bool) {
 	}
 	return nil, false
 }
+
+func init() {
+	register(&Rule{ID: "P.cow", Min: 6, Text: "the presence map's copy-on-write is complete: inner.Map.DeepCopy shares the underlying map (and every per-client Presence in it) with its copy, so (1) every write to Map.presences (map assignment, delete) in a method of Map is reached only after the copied flag was seen true or after a fresh map was stored into the field in the same call; (2) a method of Map that returns a Presence either returns the result of a DeepCopy made in the same call, or (Load) hands out the shared value and then every caller uses it only through DeepCopy, a nil test or a read; (3) what Store/LoadOrStore put into the map is a DeepCopy. Otherwise an edit made on the user's editing copy — which a failed Update must discard — shows through in the document",
+		Run: func(x *Ctx) {
+			const innerPkg = "pkg/document/presence/inner"
+			mapT := x.P.Named(innerPkg + ".Map")
+			presT := x.P.Named(innerPkg + ".Presence")
+			presF := x.P.Field(innerPkg + ".Map.presences")
+			copiedF := x.P.Field(innerPkg + ".Map.copied")
+			if mapT == nil || presT == nil || presF == nil || copiedF == nil {
+				x.C.Unresolved(x.id(), innerPkg+".Map")
+				return
+			}
+			copiedLoad := VP{"copied.Load()", func(v ssa.Value) bool {
+				c, ok := prog.Strip(v).(*ssa.Call)
+				if !ok || prog.CallObj(c) == nil || prog.CallObj(c).Name() != "Load" || len(c.Call.Args) == 0 {
+					return false
+				}
+				fa, isFA := c.Call.Args[0].(*ssa.FieldAddr)
+				return isFA && prog.FieldVar(fa) == copiedF
+			}}
+			isDeepCopy := func(v ssa.Value) bool {
+				return prog.Reaches(v, func(w ssa.Value) bool {
+					c, ok := prog.Strip(w).(*ssa.Call)
+					return ok && prog.CallObj(c) != nil && prog.CallObj(c).Name() == "DeepCopy"
+				})
+			}
+			n := 0
+			for _, fn := range x.P.FuncsIn(innerPkg) {
+				r := fn.Signature.Recv()
+				if r == nil {
+					continue
+				}
+				if pt, ok := r.Type().(*types.Pointer); !ok || !isNamed(pt.Elem(), mapT) {
+					continue
+				}
+				k := "func=" + prog.FnName(fn)
+				// fresh stores into the field
+				var fresh []ssa.Instruction
+				for _, st := range storesTo(fn, presF) {
+					if _, isMk := prog.Strip(st.Val).(*ssa.MakeMap); isMk {
+						fresh = append(fresh, st)
+					}
+				}
+				// (1) writes
+				w := 0
+				for _, b := range fn.Blocks {
+					for _, ins := range b.Instrs {
+						var m ssa.Value
+						var val ssa.Value
+						switch t := ins.(type) {
+						case *ssa.MapUpdate:
+							m, val = t.Map, t.Value
+						case *ssa.Call:
+							if bi, ok := t.Call.Value.(*ssa.Builtin); ok && bi.Name() == "delete" {
+								m = t.Call.Args[0]
+							}
+						}
+						if m == nil || prog.LoadedField(m) != presF {
+							continue
+						}
+						w++
+						n++
+						x.guardedOrVia(fmt.Sprintf("%s write#%d only-on-a-private-map", k, w), ins, []Cmp{isTrue(copiedLoad)}, fresh,
+							"the write happens only after copied was seen true or a fresh map was installed", "a method writes into Map.presences while the map may still be shared with the Map it was copied from / to: the write shows through in the other one")
+						if val != nil {
+							x.check(isDeepCopy(val), fmt.Sprintf("%s write#%d stores-a-copy", k, w), x.pos(ins), "what is stored is a DeepCopy", "the presence stored into the map is the caller's own object, not a copy: later writes by the caller change the map's entry")
+						}
+					}
+				}
+				// (2) returned presences
+				res := fn.Signature.Results()
+				if res.Len() == 1 && isNamed(res.At(0).Type(), presT) {
+					shared := false
+					for i, ret := range prog.Returns(fn) {
+						v := prog.ReturnValue(ret, 0)
+						if prog.IsNilConst(v) || isDeepCopy(v) {
+							n++
+							x.hold(fmt.Sprintf("%s return#%d private", k, i+1), x.pos(ret), "returns nil or a DeepCopy made in this call")
+							continue
+						}
+						shared = true
+					}
+					if shared {
+						// every caller treats the result as read-only
+						for _, c := range x.directCallers(fn.Object().(*types.Func)) {
+							if c.Value() == nil || c.Parent().Pkg == nil || !prog.IsProd(c.Parent().Pkg.Pkg.Path()) {
+								continue
+							}
+							n++
+							bad := ""
+							var visit func(v ssa.Value, d int)
+							visit = func(v ssa.Value, d int) {
+								if d > 4 {
+									return
+								}
+								for _, ref := range *v.Referrers() {
+									switch t := ref.(type) {
+									case *ssa.DebugRef:
+									case *ssa.BinOp, *ssa.Lookup, *ssa.Range:
+									case *ssa.Phi:
+										visit(t, d+1)
+									case *ssa.ChangeType:
+										visit(t, d+1)
+									case *ssa.Store:
+										// spilled to a local and read back
+										if a, isA := t.Addr.(*ssa.Alloc); isA && t.Val == v {
+											for _, ar := range *a.Referrers() {
+												if u, isU := ar.(*ssa.UnOp); isU {
+													visit(u, d+1)
+												}
+											}
+										} else {
+											bad = ref.String()
+										}
+									case ssa.CallInstruction:
+										o := prog.CallObj(t)
+										if o != nil && (o.Name() == "DeepCopy" || o.Name() == "len") {
+											continue
+										}
+										if bi, isB := t.Common().Value.(*ssa.Builtin); isB && bi.Name() == "len" {
+											continue
+										}
+										bad = ref.String()
+									default:
+										bad = ref.String()
+									}
+								}
+							}
+							visit(c.Value(), 0)
+							x.check(bad == "", fmt.Sprintf("%s caller=%s result-only-read-or-copied", k, prog.FnName(c.Parent())), x.pos(c),
+								"the shared presence is only read, nil-tested or deep-copied", "the presence handed out by "+fn.Name()+" is shared with the map it came from, and this caller uses it as "+bad+": a write through it changes the document's presence behind its back")
+						}
+					}
+				}
+			}
+			if n < 6 {
+				x.C.Vacuous(x.id()+" sites", n, 6)
+			}
+		}})
+}
